@@ -39,6 +39,10 @@ class Gen:
                 rs = real if size == 0 or size >= real else size
                 self.h[(p, i)] = [n, False, rs, self.seg[n]]
             else:
+                if rng.random() < 0.25:
+                    # a creation that cannot succeed (zero size / a size no system grants) must fail without leaving the name behind
+                    self.lines.append("P %d shmnew %d %d %d" % (p, i, n, rng.choice([0, 1 << 50])))
+                    return
                 size = rng.choice([1, 17, 64, 100, 4096, 5000])
                 self.seg[n] = [size, None]
                 self.h[(p, i)] = [n, True, size, self.seg[n]]
